@@ -47,7 +47,7 @@ class ProcessingLoop(Contract):
     returns = "Val"
     raises = True
     modifies = ENV_MODIFIES + ["Lock.locked"]
-    properties = ["C03", "C04", "C06", "C11"]
+    properties = ["C03", "C04", "C06", "C11", "C14"]
 
     def pre(self, s, a):
         f = dict(wf_world(s))
@@ -93,7 +93,7 @@ class ProcessingLoop(Contract):
             "C11|outer:empty-queue-is-a-no-op": z3.Implies(z3.And(outer, h0 == t0), z3.And(
                 s.g("ntrig") == n0, s.g("ng") == s0.g("ng"), s.g("ncb") == s0.g("ncb"), mstate(s) == mstate(s0),
                 qt(s) == t0, res == NONE)),
-            "outer:result-is-first-non-sentinel-result": z3.Implies(outer, z3.Or(
+            "C03,C14|outer:result-is-first-non-sentinel-result": z3.Implies(outer, z3.Or(
                 z3.And(res == NONE, z3.ForAll([k], z3.Implies(
                     z3.And(k >= n0, k < s.g("ntrig")),
                     z3.Select(s.g("trig_res"), k) == W.SENT))),
@@ -104,7 +104,7 @@ class ProcessingLoop(Contract):
             # (c) non-RTC: immediate, depth-first
             "nonrtc:triggers-head-item-now": z3.Implies(nonrtc, z3.And(
                 s.g("ntrig") >= n0 + 1, z3.Select(s.g("trig_log"), n0) == z3.Select(qarr(s0), h0))),
-            "nonrtc:returns-its-own-result": z3.Implies(nonrtc, z3.Select(s.g("trig_res"), n0) == res),
+            "C03,C14|nonrtc:returns-its-own-result": z3.Implies(nonrtc, z3.Select(s.g("trig_res"), n0) == res),
             "nonrtc:queue-balanced": z3.Implies(nonrtc, qt(s) - qh(s) == t0 - h0 - 1),
             "nonrtc:lock-untouched": z3.Implies(nonrtc, locked(s) == locked(s0)),
             "sent-log-append-only": z3.And(qt(s) >= t0, prefix_kept(qarr(s0), qarr(s), t0, "sl2")),
@@ -142,7 +142,7 @@ class ProcessingLoop(Contract):
             "fifo": z3.ForAll([k], z3.Implies(
                 z3.And(k >= h0, k < qh(s)),
                 z3.Select(s.g("trig_log"), n0 + k - h0) == z3.Select(qarr(s), k))),
-            "first-result": z3.Or(
+            "C03,C14|first-result": z3.Or(
                 z3.And(fr == W.SENT, z3.ForAll([k], z3.Implies(
                     z3.And(k >= n0, k < s.g("ntrig")), z3.Select(s.g("trig_res"), k) == W.SENT))),
                 z3.And(fr != W.SENT, z3.Exists([m], z3.And(
@@ -287,10 +287,11 @@ class Trigger(Contract):
         allow = s0.sel("StateMachine.allow_event_without_transition", W.SM)
         f = self._log_post(s0, s, a, r)
         f["C01|state-was-mapped"] = z3.Implies(z3.Not(initial), smap_has(s0, mstate(s0)))
-        f["C01|first-enabled-candidate-fires-or-nothing-does"] = z3.Implies(normal, z3.Or(
+        f["C01,C14|first-enabled-candidate-fires-and-its-result-is-returned-or-nothing-does"] = z3.Implies(normal, z3.Or(
             z3.Exists([k], z3.And(
                 k >= 0, k < n, self._selection(s0, s, a, k, winner=k, winner_status=2),
-                mstate(s) == s0.sel("State.value", s0.sel("Transition.target", tk)))),
+                mstate(s) == s0.sel("State.value", s0.sel("Transition.target", tk)),
+                res == cell(s, "ares", td, tk))),
             z3.And(self._selection(s0, s, a, n), mstate(s) == mstate(s0), allow, res == NONE)))
         f["C04|a-failing-callback-is-not-swallowed"] = none_swallowed(s0, s)
         f["C11|initial:returns-sentinel"] = z3.Implies(initial, res == W.SENT)
@@ -459,6 +460,9 @@ class Activate(Contract):
 
     def ghost_exit(self, path, a, r):
         self._set_status(path, a, z3.If(r.items[0].e, z3.IntVal(2), z3.IntVal(1)))
+        td, t = a.trigger_data.e, a.transition.e
+        ar = path.hget("ghost.ares")
+        path.hset("ghost.ares", z3.Store(ar, td, z3.Store(z3.Select(ar, td), t, ref_of(r.items[1]))))
 
     def ghost_exc(self, path, a, x):
         self._set_status(path, a, z3.IntVal(3))
@@ -483,6 +487,10 @@ class Activate(Contract):
         rl = z3.And(rtc(s0), locked(s0))
         tv = s0.sel("State.value", s0.sel("Transition.target", t))
         f = self._status_post(s0, s, a, z3.If(executed, z3.IntVal(2), z3.IntVal(1)))
+        f["C14|result-recorded"] = z3.And(
+            cell(s, "ares", a.trigger_data.e, t) == res,
+            z3.Implies(rl, s.g("ares") == z3.Store(s0.g("ares"), a.trigger_data.e, z3.Store(
+                z3.Select(s0.g("ares"), a.trigger_data.e), t, res))))
         f.update(queue_effect(s0, s))
         f.update(no_nested_trigger(s0, s))
         f["C03|result-is-never-the-private-sentinel"] = res != W.SENT
@@ -529,6 +537,7 @@ class Activate(Contract):
         rl = z3.And(rtc(s0), locked(s0))
         tv = s0.sel("State.value", s0.sel("Transition.target", t))
         f = self._status_post(s0, s, a, z3.IntVal(3))
+        f["C14|no-result-recorded"] = z3.Implies(rl, s.g("ares") == s0.g("ares"))
         f.update(queue_effect(s0, s))
         f.update(no_nested_trigger(s0, s))
         m = s.g("ng") - g0  # groups started; the last one raised
